@@ -235,9 +235,18 @@ def run(ctx):
                     outside = {x.id for x in ast.walk(n_.test) if isinstance(x, ast.Name) and id(x) not in in_validate}
                     if derived & outside:
                         ctx.violation("C09.R3", f"every branch is put to the conformance test whatever the datum is: `{norm(n_.test)[:60]}`", wu.where(n_.test), f"write_union: conformance test combined with `{norm(n_.test)[:90]}`", "a branch is passed over, depending on the datum, before it was asked whether the datum conforms to it: a conforming branch can be skipped")
-                    try:
-                        vnode = cfg.node_of(n_)
-                    except Exception:
+                    vnode = None
+                    for cand_ in (n_.test, n_):
+                        if cfg.has(cand_):
+                            vnode = cfg.node_of(cand_)
+                            break
+                    if vnode is None:
+                        for c_ in ast.walk(n_.test):
+                            if cfg.has(c_):
+                                vnode = cfg.node_of(c_)
+                                break
+                    if vnode is None:
+                        ctx.unrecognised("C09.R3", "write_union", wu.where(n_), "the conformance test has no node in the flow graph")
                         continue
                     for (t_, lab_) in cfg.guards_of(vnode):
                         if t_.kind == "test" and id(t_.ast) in in_loop and (derived & set(names_in(t_.ast))) and not any(isinstance(c, ast.Call) and isinstance(c.func, ast.Name) and c.func.id in validate_names for c in ast.walk(t_.ast)):
